@@ -24,7 +24,7 @@ from ..zone import check_zone
 
 BASELINE = os.path.join(VERIF, "rules", "site_baseline.json")
 
-ALWAYS = ("assert:bounds", "assert:div_zero", "assert:rem_zero", "assert:other", "call:slice-index", "call:slice-op",
+ALWAYS = ("assert:bounds", "assert:div_zero", "assert:rem_zero", "call:slice-index", "call:slice-op",
           "call:vec-op", "call:refcell", "call:divlike")
 ARITH = ("assert:overflow", "assert:overflow_neg", "call:arith-call", "call:debug-assert")
 DIVLIKE = ("div_euclid", "rem_euclid", "ilog", "ilog2", "ilog10", "isqrt", "div", "rem", "div_assign", "rem_assign")
@@ -90,6 +90,8 @@ def classify_kind(site):
 
 def collect(facts, crates, kinds):
     """-> (sites, n_functions): every site of the requested kinds in hand-written code of `crates`"""
+    from ..intervals import register_adts
+    register_adts(facts)
     out = []
     nfn = 0
     for c in crates:
